@@ -173,7 +173,7 @@ example : mapPipeline exTree { chunkSize := 2, nProc := 2 } exVote [7, 3, 9] [0,
 /-- "this also holds when the taxonomy is flattened ..., in which case the
 levels that were not voted on are inferred from the voted descendant and
 flagged as not directly assigned": a flattened run on a well-formed stored tree
-NEVER fails (any depth, chains, single-node levels), returns one record per
+(the flattened tree is then well-formed too, `wfb_flatten`) NEVER fails (any depth, chains, single-node levels), returns one record per
 cell, and every record binds every level of the STORED hierarchy to a node of
 that level, consecutive ones related by `child_to_parent` of the stored tree
 (`path`), every level above the leaf level flagged `directly_assigned = False`
@@ -182,7 +182,7 @@ theorem flatten_path {κ} (t0 : RawTree) (cfg : Config) (vote : Oracle κ) (ll :
     (ids : List CellId) (cells : List κ) (order : List Nat)
     (hdrop : cfg.dropLevel = none) (hflat : cfg.flatten = true)
     (hleaf : t0.leafLevel = some ll)
-    (hwf0 : wfb t0 = true) (hwf : wfb t0.flatten = true) (hv : VoteOK t0.flatten vote)
+    (hwf0 : wfb t0 = true) (hv : VoteOK t0.flatten vote)
     (hlen : ids.length = cells.length) (hnd : ids.Nodup)
     (hproc : 1 ≤ cfg.nProc) (hcs : 1 ≤ cfg.chunkSize)
     (horder : order.Perm (List.range
@@ -194,13 +194,13 @@ theorem flatten_path {κ} (t0 : RawTree) (cfg : Config) (vote : Oracle κ) (ll :
         ∀ l ∈ t0.hierarchy, path l ∈ t0.nodesAt l ∧
           ∃ e', o.levels.lookup l = some e' ∧ e'.assignment = path l ∧
             (l ≠ ll → e'.direct = some false ∧ e'.ru = none) :=
-  mapPipeline_flatten_paths t0 cfg vote ll ids cells order hdrop hflat hleaf hwf0 hwf hv hlen hnd
-    hproc hcs horder
+  mapPipeline_flatten_paths t0 cfg vote ll ids cells order hdrop hflat hleaf hwf0
+    (wfb_flatten hwf0 hleaf) hv hlen hnd hproc hcs horder
 
 example : ∃ out, mapPipeline exTree { flatten := true, chunkSize := 2, nProc := 2 } exVote
     [7, 3, 9] [0, 1, 2] [1, 0] = .ok out ∧ out.length = 3 :=
   (fun ⟨out, h1, h2, _⟩ => ⟨out, h1, h2⟩) <| flatten_path exTree { flatten := true, chunkSize := 2, nProc := 2 } exVote 2 [7, 3, 9] [0, 1, 2]
-    [1, 0] rfl rfl (by decide) exTree_wf (by decide) (exVote_ok _) rfl (by decide) (by decide)
+    [1, 0] rfl rfl (by decide) exTree_wf (exVote_ok _) rfl (by decide) (by decide)
     (by decide) (by decide)
 
 /-- "... or a level is dropped for the run, in which case the levels that were
